@@ -636,7 +636,12 @@ func main() {
 	fixed, lexname, resetact := probeFixed(), probeLexName(), probeResetAct()
 	_ = enc.Encode(map[string]any{"stats": map[string]any{"probe_discard_pending_on_last_match_stopped": fixed, "probe_tiebreak_by_name_proper": lexname, "probe_deleted_tier_resets_default_action": resetact}})
 
+	variant := fmt.Sprintf("(mkVariant3 %s %s %s)", cb(fixed), cb(lexname), cb(resetact))
 	for i := 0; i < *n; i++ {
+		if r.intn(4) == 0 {
+			_ = enc.Encode(pipelineCase(r, variant))
+			continue
+		}
 		u := &universe{tiers: tierNames, eps: endpoints()}
 		stream := "stream:random"
 		sel := r.intn(16)
@@ -766,7 +771,7 @@ func main() {
 			}
 			trace = append(trace, tl)
 		}
-		coq := fmt.Sprintf("mk_case (mkVariant3 %s %s %s) %s %s %s", cb(fixed), cb(lexname), cb(resetact), lst(opsCoq), lst(outsCoq), lst(splitsCoq))
+		coq := fmt.Sprintf("ARes (mk_case %s %s %s %s)", variant, lst(opsCoq), lst(outsCoq), lst(splitsCoq))
 		tags := []string{stream}
 		if panicked {
 			tags = append(tags, "panic")
